@@ -306,9 +306,16 @@ def run_harness(binary, mode, inputs, timeout=1200, extra_env=None, tag=None):
 # --------------------------------------------------------------------------- verdict / evidence
 
 def load_known():
-    if not os.path.exists(KNOWN):
-        return []
-    return json.load(open(KNOWN))
+    """known_findings.json plus findings.d/*.json (one file per property while it is being built)."""
+    out = []
+    if os.path.exists(KNOWN):
+        out.extend(json.load(open(KNOWN)))
+    d = os.path.join(VERIF, "findings.d")
+    if os.path.isdir(d):
+        for f in sorted(os.listdir(d)):
+            if f.endswith(".json"):
+                out.extend(json.load(open(os.path.join(d, f))))
+    return out
 
 
 class Check:
